@@ -533,6 +533,14 @@ class C05(Monitor):
                 self.flag('qos>0-fired-early', 'QoS %s publish returned an already fired Deferred' % op[4], st)
             if r and r.get('how') == 'pending' and not (1 <= (r.get('mid') or 0) <= 65535):
                 self.flag('msgid-attr', 'publish Deferred.msgId is %r' % (r.get('mid'),), st)
+        # "the identifier on the wire ... [is] the same number": what the expiry of a request's retry timer re-sends carries that request's identifier
+        if op[0] == 'fire' and op[1].isdigit():
+            tm = st.pre_timers.get(int(op[1]))
+            if tm and tm['kind'] in ('rpub', 'rrel') and str(tm.get('mid')).isdigit():
+                want_type = 'PUBLISH' if tm['kind'] == 'rpub' else 'PUBREL'
+                for e in st.ev:
+                    if e['k'] == 'w' and e['pkt'] and e['pkt']['type'] == want_type and e['pkt'].get('id') is not None and e['pkt']['id'] != int(tm['mid']):
+                        self.flag('id-wire', 'the retry timer of %s identifier %s re-sent a packet carrying identifier %d' % (want_type, tm['mid'], e['pkt']['id']), st)
         for e in st.ev:
             if e['k'] == 'w' and e['pkt'] and e['pkt']['type'] == 'PUBLISH' and e.get('first') and e['pkt']['qos']:
                 rec = e.get('rec')
